@@ -202,9 +202,14 @@ func (c *Ctx) ruleT1Rec() {
 		key := "scc:" + name
 		inSCC := map[*ssa.Function]bool{}
 		var repo []*ssa.Function
+		isRepo := func(f *ssa.Function) bool {
+			// bound-method and thunk wrappers have no body of their own: they are as
+			// neutral as a library iterator
+			return c.P.IsRepoFunc(f) && f.Synthetic == ""
+		}
 		for _, v := range vs {
 			inSCC[fns[v]] = true
-			if c.P.IsRepoFunc(fns[v]) {
+			if isRepo(fns[v]) {
 				repo = append(repo, fns[v])
 			}
 		}
@@ -245,7 +250,7 @@ func (c *Ctx) ruleT1Rec() {
 				if g == nil || !inSCC[g] {
 					continue
 				}
-				if !c.P.IsRepoFunc(g) {
+				if !isRepo(g) {
 					edges = append(edges, edge{from: f, to: g, kind: "neutral", pos: e.Pos()})
 					continue
 				}
@@ -265,7 +270,7 @@ func (c *Ctx) ruleT1Rec() {
 		// library -> repo edges are neutral
 		for _, v := range vs {
 			f := fns[v]
-			if c.P.IsRepoFunc(f) {
+			if isRepo(f) {
 				continue
 			}
 			for _, e := range cg.Nodes[f].Out {
@@ -288,7 +293,7 @@ func (c *Ctx) ruleT1Rec() {
 		}
 		calledFromLib := map[*ssa.Function]bool{}
 		for _, e := range edges {
-			if e.kind == "neutral" && c.P.IsRepoFunc(e.to) {
+			if e.kind == "neutral" && isRepo(e.to) {
 				calledFromLib[e.to] = true
 			}
 		}
@@ -326,7 +331,7 @@ func (c *Ctx) ruleT1Rec() {
 		var kinds []string
 		var badEdges []string
 		for _, e := range edges {
-			if c.P.IsRepoFunc(e.from) && c.P.IsRepoFunc(e.to) {
+			if isRepo(e.from) && isRepo(e.to) {
 				kinds = append(kinds, fmt.Sprintf("%s->%s:%s", shortFn(e.from), shortFn(e.to), e.kind))
 			}
 			if strings.HasPrefix(e.kind, "guarded") || e.kind == "descend" {
@@ -609,6 +614,12 @@ func (c *Ctx) siteLevels(f *ssa.Function, pos token.Pos) (bool, map[int]func(map
 			}
 			return true
 		})
+	}
+	if lit == nil && c.onlyDescCallback(pk, decl) {
+		// a named function or method that is only ever handed, as a value, to an iterator over
+		// a descendant of the handing function's parameter: like such a literal, its
+		// parameters are elements of that descendant
+		descClosure = true
 	}
 	mk := func(e ast.Expr) func(map[int]bool) int {
 		return func(cand map[int]bool) int {
@@ -1343,4 +1354,56 @@ func transformedKey(info *types.Info, e ast.Expr) string {
 			return types.ExprString(e)
 		}
 	}
+}
+
+// onlyDescCallback: the function is never called directly; every reference to it is a
+// function value passed as an argument of a call whose receiver descends (by a field or
+// element step) from a parameter of the referring function.
+func (c *Ctx) onlyDescCallback(pk *pkgT, decl *ast.FuncDecl) bool {
+	self, _ := pk.TypesInfo.Defs[decl.Name].(*types.Func)
+	if self == nil || len(c.callSitesOf(self)) > 0 {
+		return false
+	}
+	refs, good := 0, 0
+	c.P.Funcs(func(p *pkgT, fd *ast.FuncDecl) {
+		info := p.TypesInfo
+		pparams := map[types.Object]bool{}
+		for _, fl := range []*ast.FieldList{fd.Recv, fd.Type.Params} {
+			if fl == nil {
+				continue
+			}
+			for _, f := range fl.List {
+				for _, nm := range f.Names {
+					if o := info.ObjectOf(nm); o != nil {
+						pparams[o] = true
+					}
+				}
+			}
+		}
+		pcf := c.CFG(p, fd.Body)
+		ast.Inspect(fd.Body, func(n ast.Node) bool {
+			ce, ok := n.(*ast.CallExpr)
+			if !ok {
+				return true
+			}
+			for _, a := range ce.Args {
+				var id *ast.Ident
+				switch x := ast.Unparen(a).(type) {
+				case *ast.Ident:
+					id = x
+				case *ast.SelectorExpr:
+					id = x.Sel
+				}
+				if id == nil || info.ObjectOf(id) != types.Object(self) {
+					continue
+				}
+				refs++
+				if r := Recv(ce); r != nil && descLevel(info, pcf, pparams, r, 0) >= 1 {
+					good++
+				}
+			}
+			return true
+		})
+	})
+	return refs > 0 && refs == good
 }
